@@ -50,13 +50,13 @@ TInit ==
 TReset ==
   /\ Is("reset") /\ Step
   /\ car' = [k \in Carriers |-> "unborn"] /\ owner' = [k \in Carriers |-> None]
-  /\ broken' = [k \in Carriers |-> FALSE] /\ att' = [k \in Carriers |-> FALSE]
+  /\ broken' = [k \in Carriers |-> FALSE] /\ marked' = [k \in Carriers |-> FALSE] /\ att' = [k \in Carriers |-> FALSE]
   /\ cur' = [s \in Sessions |-> 0] /\ dead' = [s \in Sessions |-> FALSE]
   /\ acc' = [s \in Sessions |-> 0] /\ nf' = 0 /\ ndrop' = 0
   /\ wr' = [s \in Sessions |-> [d \in Dirs |-> 0]] /\ rd' = [s \in Sessions |-> [d \in Dirs |-> 0]]
   /\ flags' = {} /\ UNCHANGED segVars
 
-Skipped == {"srv.flood", "srv.attached", "srv.session", "srv.accept", "srv.stream", "app.done", "stall", "car.refused", "ses.over",
+Skipped == {"app.mismatch", "srv.flood", "srv.attached", "srv.session", "srv.accept", "srv.stream", "app.done", "stall", "car.refused", "ses.over",
             "car.srvclosed", "car.notclosed", "sys.note", "dial.popped", "prx.open", "prx.kill", "brk.offer", "brk.drop"}
 TSkip == l <= Len(TraceLog) /\ e.ev \in Skipped /\ Step /\ UNCHANGED <<vars, wr, rd, flags>>
 
@@ -74,7 +74,7 @@ TCarOpen ==
        /\ car' = [car EXCEPT ![e.k] = "popped"] /\ owner' = [owner EXCEPT ![e.k] = s]
        /\ flags' = flags \cup (IF cur[s] # 0 THEN {"redial while a carrier is still current"} ELSE {})
                          \cup (IF dead[s] THEN {"dial after the redial layer closed"} ELSE {})
-       /\ UNCHANGED <<broken, att, cur, dead, segVars, acc, nf>>
+       /\ UNCHANGED <<broken, marked, att, cur, dead, segVars, acc, nf>>
   /\ UNCHANGED <<wr, rd>>
 
 TCarHello ==
@@ -82,7 +82,7 @@ TCarHello ==
   /\ IF owner[e.k] = None \/ e.wrote # "full" THEN UNCHANGED vars
      ELSE /\ car[e.k] = "popped"
           /\ car' = [car EXCEPT ![e.k] = "live"] /\ cur' = [cur EXCEPT ![owner[e.k]] = e.k]
-          /\ UNCHANGED <<owner, broken, att, dead, segVars, acc, nf>>
+          /\ UNCHANGED <<owner, broken, marked, att, dead, segVars, acc, nf>>
   /\ UNCHANGED <<wr, rd, flags>>
 
 (* The forwarder / the killed proxy: from now on nothing passes on k. *)
@@ -92,7 +92,7 @@ TFault ==
        THEN car' = [car EXCEPT ![e.k] = "frozen"] /\ UNCHANGED broken
        ELSE broken' = [broken EXCEPT ![e.k] = TRUE] /\ UNCHANGED car
   /\ nf' = nf + 1
-  /\ UNCHANGED <<owner, att, cur, dead, segVars, acc, wr, rd, flags>>
+  /\ UNCHANGED <<owner, marked, att, cur, dead, segVars, acc, wr, rd, flags>>
 
 (* The client let go of the carrier (read/write error, staleness, failed
    dial or preamble write: the harness / the repaired client then pops the
@@ -102,7 +102,7 @@ TCarEnd ==
   /\ IF owner[e.k] = None \/ car[e.k] = "dead" THEN UNCHANGED vars
      ELSE /\ car' = [car EXCEPT ![e.k] = "dead"]
           /\ cur' = [s \in Sessions |-> IF cur[s] = e.k THEN 0 ELSE cur[s]]
-          /\ UNCHANGED <<owner, broken, att, dead, segVars, acc, nf>>
+          /\ UNCHANGED <<owner, broken, marked, att, dead, segVars, acc, nf>>
   /\ UNCHANGED <<wr, rd, flags>>
 
 TAttach ==
@@ -110,12 +110,12 @@ TAttach ==
   /\ IF owner[e.k] = None THEN UNCHANGED <<att, flags>>       \* an extra carrier (C05's business)
      ELSE /\ att' = [att EXCEPT ![e.k] = TRUE]
           /\ flags' = IF owner[e.k] = e.id THEN flags ELSE flags \cup {"server attached the carrier under another ClientID"}
-  /\ UNCHANGED <<car, owner, broken, cur, dead, segVars, acc, nf, wr, rd>>
+  /\ UNCHANGED <<car, owner, broken, marked, cur, dead, segVars, acc, nf, wr, rd>>
 
 TDetach ==
   /\ Is("srv.detach") /\ Step
   /\ att' = [att EXCEPT ![e.k] = FALSE]
-  /\ UNCHANGED <<car, owner, broken, cur, dead, segVars, acc, nf, wr, rd, flags>>
+  /\ UNCHANGED <<car, owner, broken, marked, cur, dead, segVars, acc, nf, wr, rd, flags>>
 
 Owner(own) == IF own >= 0 THEN SName(own) ELSE "unknown"
 TPacket ==
@@ -129,7 +129,7 @@ TPacket ==
 TAccept ==
   /\ Is("app.accept") /\ Step
   /\ acc' = [acc EXCEPT ![e.id] = @ + 1]
-  /\ UNCHANGED <<car, owner, broken, att, cur, dead, segVars, nf, wr, rd, flags>>
+  /\ UNCHANGED <<car, owner, broken, marked, att, cur, dead, segVars, nf, wr, rd, flags>>
 
 TRead ==
   /\ Is("app.read") /\ Step
@@ -143,7 +143,7 @@ TRead ==
 TDead ==
   /\ Is("cli.dead") /\ Step
   /\ dead' = [dead EXCEPT ![SName(e.s)] = TRUE]
-  /\ UNCHANGED <<car, owner, broken, att, cur, segVars, acc, nf, wr, rd, flags>>
+  /\ UNCHANGED <<car, owner, broken, marked, att, cur, segVars, acc, nf, wr, rd, flags>>
 
 TAppErr ==
   /\ (Is("app.rerr") \/ Is("app.werr")) /\ Step
